@@ -17,6 +17,12 @@ type QuoteCase struct {
 	// text crosses internal buffer boundaries (bufio window, buffer growth).
 	Pad int     `json:"pad,omitempty"`
 	SS  [][]int `json:"ss"`
+	// Rep > 1 repeats the list Rep times (lists of dozens to hundreds of
+	// elements); Pre > 0 first performs a Join of about Pre bytes (and checks
+	// it) in the same goroutine, so that pooled buffers have held something
+	// big before the case proper runs.
+	Rep int `json:"rep,omitempty"`
+	Pre int `json:"pre,omitempty"`
 }
 
 func toInts(s string) []int {
@@ -40,6 +46,12 @@ func (c QuoteCase) strings() []string {
 	}
 	if c.Pad > 0 && len(out) > 0 {
 		out[0] = strings.ReplaceAll(padding(c.Pad), " ", "b") + out[0]
+	}
+	if c.Rep > 1 && len(out) > 0 {
+		base := out
+		for i := 1; i < c.Rep; i++ {
+			out = append(out, base...)
+		}
 	}
 	return out
 }
@@ -93,6 +105,21 @@ func checkQuoteOne(s string) string {
 }
 
 func runQuote(c QuoteCase, o *vk.Obs) string {
+	if c.Pre > 0 {
+		// a big call first: its own round trip must hold, and it must not
+		// disturb the calls that follow (pooled buffers)
+		var big []string
+		for n := 0; n < c.Pre; n += 40 {
+			big = append(big, "it's a 'big' list $x *", "plain", "")
+		}
+		j := shell.Join(big)
+		if fs, ok := shell.Split(j); !ok || !sameFields(fs, big) {
+			return fmt.Sprintf("Split(Join(list of %d strings, %d bytes joined)) does not return the list (ok=%v, %d fields)", len(big), len(j), ok, len(fs))
+		}
+		if q := shell.Quote(j); len(q) < len(j) {
+			return fmt.Sprintf("Quote of a %d-byte string returned %d bytes", len(j), len(q))
+		}
+	}
 	ss := c.strings()
 	j := shell.Join(ss)
 	fs, ok := shell.Split(j)
@@ -117,6 +144,8 @@ func runQuote(c QuoteCase, o *vk.Obs) string {
 	o.ClassIf(len(ss) == 0, "empty_list")
 	o.ClassIf(len(ss) >= 2, "list>=2")
 	o.ClassIf(c.Pad > 0, "long_string(crosses 4096)")
+	o.ClassIf(len(ss) >= 65, "list>=65")
+	o.ClassIf(c.Pre > 0, "after_a_big_call(>64KiB)")
 	for _, s := range ss {
 		if s == "" {
 			o.Class("has_empty_string")
@@ -164,7 +193,12 @@ type SplitCase struct {
 	// Pad > 0 prepends Pad filler bytes ('a' with a blank every 61 bytes) so
 	// that In lands on an internal buffer boundary (bufio's 4096-byte window).
 	Pad  int   `json:"pad,omitempty"`
-	In   []int `json:"in"`
+	// PadKind: 0 = words separated by blanks, 1 = one single-quoted run,
+	// 2 = one double-quoted run, 3 = one long unquoted word (all followed by a blank).
+	PadKind int `json:"padKind,omitempty"`
+	// Fields > 0 prepends that many one-letter fields ("x y z ...").
+	Fields int   `json:"fields,omitempty"`
+	In     []int `json:"in"`
 	Frag []int `json:"frag,omitempty"` // fragment lengths for the chunked reader (cyclic); empty = one byte at a time
 }
 
@@ -337,8 +371,46 @@ func padding(n int) string {
 	return string(b)
 }
 
+func (c SplitCase) input() string {
+	var sb strings.Builder
+	for i := 0; i < c.Fields; i++ {
+		sb.WriteByte(byte('a' + i%26))
+		sb.WriteByte(' ')
+	}
+	if c.Pad > 0 {
+		switch c.PadKind % 4 {
+		case 1:
+			sb.WriteString("'" + strings.ReplaceAll(padding(c.Pad), " ", "\t") + "' ")
+		case 2:
+			sb.WriteString("\"" + padding(c.Pad) + "\" ")
+		case 3:
+			sb.WriteString(strings.ReplaceAll(padding(c.Pad), " ", "b") + " ")
+		default:
+			sb.WriteString(padding(c.Pad))
+		}
+	}
+	sb.WriteString(fromInts(c.In))
+	return sb.String()
+}
+
+// otherInput is split between a call and the re-inspection of its result.
+const otherInput = "A B C D E F G H I J K L M N O P Q R S T U V W X Y Z 'q r' \"s t\""
+
 func runSplit(c SplitCase, o *vk.Obs) string {
-	in := padding(c.Pad) + fromInts(c.In)
+	in := c.input()
+	// results must stay what they were after later calls (pooled scanners)
+	first, firstOK := shell.Split(in)
+	keep := append([]string(nil), first...)
+	shell.Split(otherInput)
+	sc2 := shell.NewScanner(strings.NewReader(in))
+	viaScanner := sc2.Split()
+	keep2 := append([]string(nil), viaScanner...)
+	sc2.Reset(strings.NewReader(otherInput))
+	sc2.Split()
+	if !sameFields(first, keep) || !sameFields(viaScanner, keep2) {
+		return fmt.Sprintf("the fields returned for %q changed after a later Split call: now %q / %q, were %q", in, first, viaScanner, keep)
+	}
+	_ = firstOK
 	ref, m := checkSplit(in)
 	if m != "" {
 		return m
@@ -359,6 +431,8 @@ func runSplit(c SplitCase, o *vk.Obs) string {
 	}
 	o.ClassIf(!ref.Complete, "incomplete")
 	o.ClassIf(c.Pad > 0, "input_crosses_4096_boundary")
+	o.ClassIf(c.Pad > 0 && c.PadKind%4 == 1, "single_quoted_run>=4096")
+	o.ClassIf(len(ref.Fields) >= 16, "fields>=16")
 	o.ClassIf(ref.Modes["dq-escape"], "escape_in_double_quotes")
 	o.ClassIf(ref.UnquotedNewline, "unquoted_newline")
 	return ""
